@@ -7,7 +7,8 @@ use crate::rng::Rng;
 use crate::run::{Plan, Sched, Special};
 use crate::world::{Init, InitialWb};
 
-pub const CLAIMED: [&str; 12] = ["C01", "C02", "C03", "C04", "C08", "C24", "C25", "C26", "C27", "C28", "C29", "C30"];
+/// properties that have a check in this binary (MANIFEST.json lists the ones that are claimed)
+pub const CLAIMED: [&str; 19] = ["C01", "C02", "C03", "C04", "C08", "C12", "C13", "C14", "C15", "C16", "C17", "C24", "C25", "C26", "C27", "C28", "C29", "C30", "C33"];
 
 pub fn runs_for(prop: &str, tier: &str) -> u64 {
     let (q, t) = match prop {
@@ -18,6 +19,7 @@ pub fn runs_for(prop: &str, tier: &str) -> u64 {
         "C25" => (20_000, 1_000_000),
         "C04" => (40_000, 1_000_000),
         "C29" | "C30" => (60_000, 2_000_000),
+        "C12" | "C13" | "C14" | "C15" | "C16" | "C17" | "C33" => (30_000, 800_000),
         _ => (10_000, 200_000),
     };
     let n = if tier == "thorough" { t } else { q };
@@ -186,6 +188,41 @@ pub fn plan(prop: &str, rng: &mut Rng, hash_key: u64) -> Plan {
             profile.p_undo = 0.08;
             profile.hostile = rng.chance(0.5);
         }
+        "C12" | "C13" | "C14" | "C15" | "C16" | "C17" | "C33" => {
+            // build a workbook, then displace it: the family of the property's own
+            // operation is always present and heavy
+            let own: &[(Fam, u32)] = match prop {
+                "C16" => &[(Fam::Clip, 30)],
+                "C17" => &[(Fam::Sheet, 35)],
+                "C33" => &[(Fam::Struct, 22), (Fam::Clip, 10), (Fam::Clear, 10), (Fam::Links, 14), (Fam::Cf, 14)],
+                "C14" => &[(Fam::Struct, 4)],
+                _ => &[(Fam::Struct, 28)],
+            };
+            let mut fams: Vec<(Fam, u32)> = vec![(Fam::Input, 45)];
+            for (f, wgt) in [(Fam::Style, 6), (Fam::Links, 5), (Fam::Cf, 3), (Fam::Names, 4), (Fam::Attr, 5), (Fam::Sheet, 4), (Fam::Clear, 3), (Fam::Border, 2), (Fam::Fill, 2), (Fam::Array, 2)] {
+                if rng.chance(0.6) {
+                    fams.push((f, wgt));
+                }
+            }
+            for (f, wgt) in own {
+                fams.retain(|(g, _)| g != f);
+                fams.push((*f, *wgt));
+            }
+            if guards && fams.iter().any(|(f, _)| *f == Fam::Struct) {
+                fams.retain(|(f, _)| *f != Fam::Array);
+            }
+            profile.fams = fams;
+            profile.len = rng.range(4, 30) as usize;
+            profile.p_undo = 0.05;
+            profile.p_redo = 0.02;
+            profile.p_formula = *rng.pick(&[0.4, 0.6, 0.8]);
+            if prop == "C14" {
+                sched.p_probe = 0.25;
+            }
+            if prop == "C17" || prop == "C16" {
+                init.initial = InitialWb::Empty;
+            }
+        }
         "C29" | "C30" => {
             // the workload comes from lines::line_event; the rest of the catalogue is
             // sprinkled in (the reference models resynchronise after what they do not describe)
@@ -236,6 +273,13 @@ pub fn oracle_for(prop: &str) -> Box<dyn Oracle> {
         "C28" => Box::new(Monitor::new(Which::Selection)),
         "C08" => Box::new(Monitor::new(Which::NonFinite)),
         "C24" => Box::new(XlsxRoundTrip::new()),
+        "C12" => Box::new(crate::structural::Structural::new(crate::structural::Focus::Insert)),
+        "C13" => Box::new(crate::structural::Structural::new(crate::structural::Focus::Delete)),
+        "C14" => Box::new(crate::structural::Structural::new(crate::structural::Focus::InsDel)),
+        "C15" => Box::new(crate::structural::Structural::new(crate::structural::Focus::Move)),
+        "C16" => Box::new(crate::structural::Structural::new(crate::structural::Focus::Clip)),
+        "C17" => Box::new(crate::structural::Structural::new(crate::structural::Focus::Sheet)),
+        "C33" => Box::new(crate::structural::Structural::new(crate::structural::Focus::Meta)),
         "C29" => Box::new(crate::lines::LineAttrs::new()),
         "C30" => Box::new(crate::lines::StyleReadback::new()),
         "C25" => Box::new(CorruptImportOracle::new()),
@@ -256,6 +300,15 @@ pub fn special_for(prop: &str) -> Option<Box<Special>> {
             };
             let label = if plan.is_none() { None } else { Some(format!("write-fault:{}", write_plan_kind(&plan))) };
             Some((crate::ev::Ev::XlsxExportImport { plan }, label))
+        })),
+        "C14" => Some(Box::new(|rng, w, _p| {
+            let n = w.primary.sheet_count().max(1);
+            let rows = rng.chance(0.5);
+            let at = match rng.below(12) {
+                0 => if rows { 1_048_575 } else { 16_383 },
+                _ => rng.range(1, 12) as i32,
+            };
+            Some((crate::ev::Ev::InsertThenDelete { sheet: rng.below(n as u64) as u32, rows, at, n: rng.range(1, 3) as i32 }, None))
         })),
         "C29" => Some(Box::new(|rng, w, p| crate::lines::line_event(rng, w, p, false))),
         "C30" => Some(Box::new(|rng, w, p| crate::lines::line_event(rng, w, p, true))),
